@@ -518,6 +518,17 @@ func (v *valInliner) expandStmt(st ast.Stmt) ast.Stmt {
 	if call == nil || singleReturn(hf) != nil {
 		return nil
 	}
+	if v.producers[hf.Obj] {
+		// a producer is expanded only where its bytes go into a field (this.Records = encode(…)): a
+		// local that receives them is followed by the wire engine itself, to the write that emits it
+		as, ok := st.(*ast.AssignStmt)
+		if !ok || len(as.Lhs) != 1 {
+			return nil
+		}
+		if _, isField := ast.Unparen(as.Lhs[0]).(*ast.SelectorExpr); !isField {
+			return nil
+		}
+	}
 	if _, isRet := st.(*ast.ReturnStmt); isRet {
 		sig := hf.Obj.Type().(*types.Signature)
 		if sig.Results().Len() != 1 && inner != ast.Unparen(rhs) {
